@@ -1411,7 +1411,7 @@ class ProgramData:
                     optimize_level = int(option_value)
                 except ValueError as e:
                     raise RuntimeError("Invalid optimization level " + option_value) from e
-                if optimize_level > max(cls._OPTIMIZE_LEVELS):
+                if optimize_level not in cls._OPTIMIZE_LEVELS:
                     raise RuntimeError("Invalid optimization level " + option_value)
             elif option_name in ["f", "flag"]:
                 if option_name == "f":
@@ -1429,6 +1429,8 @@ class ProgramData:
                             flag_name, set_to = option_value.split("=")
                         except ValueError as e:
                             raise RuntimeError("Invalid value for flag " + option_value) from e
+                        if set_to not in ["yes", "on", "no", "off"]:
+                            raise RuntimeError("Invalid value for flag " + option_value + " (use yes/on or no/off)")
                         set_to = set_to in ["yes", "on"]
                     option_value = flag_name
                     flag_name = flag_name.upper().replace("-", "_")
@@ -1453,6 +1455,8 @@ class ProgramData:
             elif option_name == "dump-prefix":
                 cls.dump_prefix = option_value
             elif option_name in ["t", "dry-run"]:
+                if option_name == "t" and option_value:
+                    raise RuntimeError("Invalid argument " + option)
                 cls.dry_run = True
             else:
                 p_option_name = option_name.upper().replace("-", "_")
